@@ -199,8 +199,13 @@ class Hi(V):
         return (((x + 0x800) >> 12) & 0xfffff) - (0x100000 if ((x + 0x800) >> 12) & 0x80000 else 0)
 
     def render(self, st):
-        if st.pick(4, 'hip') == 0 and isinstance(self.v, (Lit, CRef, LRef)):
-            return '%hi ' + self.v.render(st)
+        if st.pick(4, 'hip') == 0 and isinstance(self.v, (Lit, CRef, LRef, Pos, PosC, Off, Bin)):
+            # the modifier without parentheses of its own takes the rest of the operand: %hi K + 4, %hi %position(L, K);
+            # (an operand that starts with a parenthesis would be read as the parenthesised form)
+            inner = self.v.render(st)
+            if not inner.startswith('('):
+                return '%hi ' + inner
+            return '%hi(' + inner + ')'
         return '%hi(' + self.v.render(st) + ')'
 
     def labels(self):
@@ -220,8 +225,13 @@ class Lo(V):
         return x - 0x1000 if x & 0x800 else x
 
     def render(self, st):
-        if st.pick(4, 'lop') == 0 and isinstance(self.v, (Lit, CRef, LRef)):
-            return '%lo ' + self.v.render(st)
+        if st.pick(4, 'lop') == 0 and isinstance(self.v, (Lit, CRef, LRef, Pos, PosC, Off, Bin)):
+            # the modifier without parentheses of its own takes the rest of the operand: %lo K + 4, %lo %position(L, K);
+            # (an operand that starts with a parenthesis would be read as the parenthesised form)
+            inner = self.v.render(st)
+            if not inner.startswith('('):
+                return '%lo ' + inner
+            return '%lo(' + inner + ')'
         return '%lo(' + self.v.render(st) + ')'
 
     def labels(self):
